@@ -99,7 +99,8 @@ def discover(arg):
                 if not rng:
                     continue
                 d = p.DefaultValue
-                rec = {'t': 'int', 'range': rng, 'default': int(getattr(d, 'int_value', d)) if d is not None else None}
+                rec = {'t': 'int', 'range': rng, 'default': int(getattr(d, 'int_value', d)) if d is not None else None,
+                       'option': getattr(p, 'ValuesEnum', None) is not None}
             else:
                 continue
             rec['modules'] = [nm]
@@ -146,6 +147,10 @@ def probes_for(name, rec):
         inner = [x for x in rng[1:-1] if x != rec['default'] and x != 0]
         if inner:
             cand.append((inner[len(inner) // 2], 'bound', 'interior'))
+        if rec.get('option') and len(rng) >= 2:
+            # an option written as a fraction between two documented members is a non-member (and must not be truncated to one)
+            cand.append((rng[0] + 0.5, 'outside', 'non_member_fraction_low'))
+            cand.append((rng[-2] + 0.25, 'outside', 'non_member_fraction_high'))
         for v, kind, label in cand:
             if rec['default'] is not None and v == rec['default'] == -1:
                 continue
